@@ -378,6 +378,10 @@ pub fn derive_block(input: TokenStream) -> TokenStream {
         } else {
             quote! { #first.iter().take(n)#(.zip(#rest.iter()))* }
         };
+        // zip() nests to the left: a.zip(b).zip(c) yields ((a, b), c).
+        let in_pat = rest
+            .iter()
+            .fold(quote! { #first }, |acc, name| quote! { (#acc, #name) });
         if has_attr(&input.attrs, "sync", STRUCT_ATTRS) {
             let first_tags = &in_tag_names[0];
             extra.push(quote! {
@@ -414,7 +418,7 @@ pub fn derive_block(input: TokenStream) -> TokenStream {
 
                     let mut otags = Vec::new();
                     let empty_tags = true #(&&#in_tag_names.is_empty())*;
-                    let it = #it.enumerate().map(|(pos, (#(#in_names),*))| {
+                    let it = #it.enumerate().map(|(pos, #in_pat)| {
                         if empty_tags {
                             // Fast path for input without tags.
                             // There may be opportunity to deduplicate some of
